@@ -180,9 +180,8 @@ class World(object):
             return 1
         if ln != (self.T.p.bit_length() + 7) // 8 or len(xb) < ln or len(yb) < ln:
             return 12
-        x, y = int.from_bytes(bytes(xb[:ln]), "big"), int.from_bytes(bytes(yb[:ln]), "big")
-        if x >= self.T.p or y >= self.T.p:
-            return 5
+        # like the real library, coordinates are reduced modulo p, not refused: the range check is the Python layer's duty
+        x, y = int.from_bytes(bytes(xb[:ln]), "big") % self.T.p, int.from_bytes(bytes(yb[:ln]), "big") % self.T.p
         if (x, y) == (0, 0):
             P = None
         elif self.T.on_curve((x, y)):
@@ -478,7 +477,7 @@ def _job(arg):
     return _run(repo, T, src, {"x1": x1, "y1": y1, "x2": x2, "y2": y2, "k": k})
 
 
-def point_rows(check, ctx, rule="K-pw", programs=None):
+def point_rows(check, ctx, rule="K-pw", programs=None, refused_too=False):
     from ..par import pmap
     repo = ctx.repo
     T = find_toy(19)
@@ -544,7 +543,7 @@ def point_rows(check, ctx, rule="K-pw", programs=None):
         check.ob(rule, "%s|point.%s" % (rule, name), not wrong, mod.path, repo.func(mod, ("EccXPoint" if name.startswith("x.") else "EccPoint") + ".__init__").lineno,
                  extracted=("%d of %d sequences differ: " % (len(wrong), n) + "; ".join(wrong[:2])) if wrong else "%d operation sequences on a complete toy curve agree with the group law at every observation" % n,
                  expected=CITE[name])
-    if programs:
+    if programs and not refused_too:
         check.count("point_sequences", total)
         return total
     # constructor refusals
